@@ -39,6 +39,32 @@ def _control_snippet():
     return _id_hash_sites([F])
 
 
+def _only_formatted_into_text(pm, c):
+    """Is the value of expression c consumed by string formatting (f-string, str.format, %, str / hex / repr)?  Text
+    made from an address is a name, not a decision."""
+    cur = c
+    while cur in pm:
+        p = pm[cur]
+        if isinstance(p, (ast.FormattedValue, ast.JoinedStr)):
+            return True
+        if isinstance(p, ast.Call):
+            if isinstance(p.func, ast.Attribute) and p.func.attr == "format" and cur is not p.func:
+                return True
+            if call_name(p) in ("str", "hex", "repr", "format", "oct") and cur in p.args:
+                return True
+            if call_name(p) in ("abs", "int") and cur in p.args:
+                cur = p
+                continue
+            return False
+        if isinstance(p, ast.BinOp) and isinstance(p.op, ast.Mod) and cur is p.right and isinstance(p.left, (ast.Constant, ast.JoinedStr)):
+            return True
+        if isinstance(p, (ast.Tuple, ast.UnaryOp)):
+            cur = p
+            continue
+        return False
+    return False
+
+
 def r1_no_address_in_decisions(ctx):
     repo = ctx.repo
     control = _control_snippet()
@@ -55,7 +81,7 @@ def r1_no_address_in_decisions(ctx):
             # identity map for naming emitted variables: key only tested for membership / used to fetch a name
             if f.cls is not None and f.cls.name == "NameDatabase":
                 reason = "identity map from injected objects to generated variable names (no ordering, no dispatch decision)"
-            elif any(isinstance(x, ast.JoinedStr) and any(y is c for y in ast.walk(x)) for x in ast.walk(f.node)):
+            elif _only_formatted_into_text(pm, c):
                 reason = "part of a generated name / virtual file name"
         ctx.ob(
             f"{f.key}:{short(c, 24)}",
